@@ -21,6 +21,9 @@ void _ZN8Pistache12StreamCursor5resetEv(u8*);
 #ifndef N
 #define N 6
 #endif
+#ifndef PATMAX
+#define PATMAX 4
+#endif
 static u8 lc(u8 c) { return (c >= 'A' && c <= 'Z') ? c + 32 : c; }
 int main(void) {
 #ifndef REAL
@@ -66,10 +69,10 @@ int main(void) {
   VP_OBS("z", sb.eback == 0);
   __CPROVER_assert(sb.eback == 0 && sb.gptr == 0 && sb.egptr == 0, "StreamCursor::reset() empties the get area");
 #elif defined(H_RAW) || defined(H_STRING)
-  VP_IN(u64, m, "m"); __CPROVER_assume(m <= 4);
-  u8 pat[5]; for (int i = 0; i < 4; i++) { VP_SET(u8, pat[i], "pat"); } pat[4] = 0;
+  VP_IN(u64, m, "m"); __CPROVER_assume(m <= PATMAX);
+  u8 pat[PATMAX + 1]; for (int i = 0; i < PATMAX; i++) { VP_SET(u8, pat[i], "pat"); } pat[PATMAX] = 0;
 #ifdef H_STRING
-  for (u64 i = 0; i < 4; i++) if (i < m) __CPROVER_assume(pat[i] != 0);   /* literals passed by callers contain no NUL */
+  for (u64 i = 0; i < PATMAX; i++) if (i < m) __CPROVER_assume(pat[i] != 0);   /* literals passed by callers contain no NUL */
   VP_IN(u32, cs, "cs"); __CPROVER_assume(cs <= 1);
   u8 r = _ZN8Pistache12match_stringEPKcmRNS_12StreamCursorENS_15CaseSensitivityE(pat, m, (u8*)&c, cs);
 #else
@@ -79,7 +82,7 @@ int main(void) {
   VP_OBS("r", r); VP_OBS("cur", CUR());
   INVARIANT();
   int eq = m <= avail;
-  for (u64 i = 0; i < 4; i++) if (eq && i < m) { if (cs == 0 ? b[pos + i] != pat[i] : lc(b[pos + i]) != lc(pat[i])) eq = 0; }
+  for (u64 i = 0; i < PATMAX; i++) if (eq && i < m) { if (cs == 0 ? b[pos + i] != pat[i] : lc(b[pos + i]) != lc(pat[i])) eq = 0; }
 #ifdef H_STRING
   /* case-sensitive comparison of match_string is strncmp: a NUL in the buffer equal to... cannot match a NUL-free literal */
 #endif
@@ -93,13 +96,13 @@ int main(void) {
   int eq = avail >= 1 && (cs == 0 ? b[pos] == ch : lc(b[pos]) == lc(ch));
   __CPROVER_assert((r != 0) == eq && CUR() == (r ? pos + 1 : pos), "match_literal consumes one matching byte or nothing");
 #elif defined(H_UNTIL)
-  u8 set[2]; VP_SET(u8, set[0], "set"); VP_SET(u8, set[1], "set");
-  VP_IN(u64, ns, "ns"); __CPROVER_assume(ns >= 1 && ns <= 2);
+  u8 set[3]; VP_SET(u8, set[0], "set"); VP_SET(u8, set[1], "set"); VP_SET(u8, set[2], "set");
+  VP_IN(u64, ns, "ns"); __CPROVER_assume(ns >= 1 && ns <= 3);
   u8 r = _ZN8Pistache11match_untilESt16initializer_listIcERNS_12StreamCursorENS_15CaseSensitivityE(set, ns, (u8*)&c, 1 /* Insensitive: the default every parser step uses */);
   VP_OBS("r", r); VP_OBS("cur", CUR());
   INVARIANT();
   /* as implemented for Insensitive: the delimiter is lower-cased, the input byte is not (delimiters used by the parser are not letters) */
-  u64 k = pos; while (k < n && !(b[k] == lc(set[0]) || (ns == 2 && b[k] == lc(set[1])))) k++;
+  u64 k = pos; while (k < n && !(b[k] == lc(set[0]) || (ns >= 2 && b[k] == lc(set[1])) || (ns >= 3 && b[k] == lc(set[2])))) k++;
   __CPROVER_assert((r != 0) == (k < n), "match_until succeeds iff a delimiter is among the delivered bytes");
   __CPROVER_assert(CUR() == k, "match_until stops at the first delimiter (or at the end of the delivered bytes)");
 #elif defined(H_SKIPWS)
